@@ -260,12 +260,12 @@ class Sim:
         S = state_digest(h)
         others = self._others(hi)
         mask = memo_mask(h)
-        if inject:
-            INJECTOR.arm(inject["target"], inject["nth"], inject["exc"])
         # the reference is built from the state *before* the call
         # (the name is the one the handle had when it entered the world: no
         # operation of the API renames a crystal)
         pre = (_clone(h.unit_cell), _clone(h.space_group), _clone(h.asymmetric_unit), self.titl0[hi])
+        if inject:
+            INJECTOR.arm(inject["target"], inject["nth"], inject["exc"])
         try:
             a = outcome(fn, h, self.A, {"dir": "/simfs/h%d" % hi})
         finally:
